@@ -294,6 +294,52 @@ fn selftest(pals: &[Palette]) -> (u64, u64) {
     (inj, det)
 }
 
+/// C10 over faulted runs: a rejected write changes nothing also when a destination operation failed once
+/// before or after it.  Compared with the same history minus the rejected calls under the same faults
+/// (a rejected write issues no operation, so the fault indices mean the same in both runs).
+pub fn judge_frun(pal: &Palette, case: &crate::frun::FCase, run: &crate::frun::FRun) -> Vec<(String, String)> {
+    let mut out = vec![];
+    let first_w = case.ops.iter().position(|o| matches!(o, WOp::W(_)));
+    let first_r = case.ops.iter().position(|o| *o == WOp::R);
+    // the file must have its type before the first rejected call: its first write succeeded
+    match (first_w, first_r) {
+        (Some(w), Some(r)) if w < r && run.results[w] == CallRes::Ok => {}
+        _ => return out,
+    }
+    let other = match case.other {
+        Some(o) => o,
+        None => return out,
+    };
+    let expect = format!("MismatchShapeType(requested={},actual={})", case.ty.code(), other.code());
+    let stripped = crate::frun::FCase { ops: case.ops.iter().copied().filter(|o| *o != WOp::R).collect(), ..case.clone() };
+    let reference = crate::frun::run(pal, &stripped);
+    let ctxt = || format!("faults {:?} fired in calls {:?}; results {:?}", case.faults, run.fired, run.results);
+    let mut kept = vec![];
+    for (i, (op, r)) in case.ops.iter().zip(&run.results).enumerate() {
+        if *op == WOp::R {
+            if *r != CallRes::Err(expect.clone()) {
+                out.push(("fault-run:rejected-write-result".to_string(), format!("{}: op {} returned {:?}, expected Err({})", ctxt(), i, r, expect)));
+            }
+            for (name, log) in [("shp", &run.shp_log), ("shx", &run.shx_log)] {
+                if log.iter().any(|e| e.call() == i as u32 && matches!(e, Op::Write { .. })) {
+                    out.push((format!("fault-run:rejected-write-wrote-bytes:{}", name), format!("{}: op {} was rejected but wrote to the .{}", ctxt(), i, name)));
+                }
+            }
+        } else {
+            kept.push(r.clone());
+        }
+    }
+    if kept[..] != reference.results[..kept.len()] {
+        out.push(("fault-run:other-calls-differ".to_string(), format!("{}: without the rejected calls the other calls return {:?}", ctxt(), reference.results)));
+    } else if run.shp != reference.shp || run.shx != reference.shx {
+        out.push((
+            "fault-run:final-files-differ".to_string(),
+            format!("{}: the files differ from those of the same history without the rejected calls under the same faults (.shp {} vs {} bytes, first difference {:?}; .shx {} vs {} bytes)", ctxt(), run.shp.len(), reference.shp.len(), run.shp.iter().zip(&reference.shp).position(|(a, b)| a != b), run.shx.len(), reference.shx.len()),
+        ));
+    }
+    out
+}
+
 pub fn check(tier: Tier) -> i32 {
     let started = Instant::now();
     let depth = tier.pick(5, 8);
@@ -386,18 +432,76 @@ pub fn check(tier: Tier) -> i32 {
             }
         }
     }
+    // (c) user-defined shapes (the traits are public) of every one of the 14 types, NullShape included, offered
+    //     to a file of every other type
+    {
+        use crate::bridge::*;
+        for (fi, file_ty) in ALL13.iter().enumerate() {
+            for with_shx in [true, false] {
+                let env = WEnv::new(with_shx);
+                let mut w = match &env.shx {
+                    Some(x) => shapefile::ShapeWriter::with_shx(env.shp.clone(), x.clone()),
+                    None => shapefile::ShapeWriter::new(env.shp.clone()),
+                };
+                let pal = &pals[fi * 13 + (fi + 1) % 13];
+                let _ = write_shape(&mut w, &pal.lib[0]);
+                for_each_user_type(|code, name, offer| {
+                    if code == file_ty.code() {
+                        return;
+                    }
+                    let before = (env.shp.log_len(), env.shx.as_ref().map(|x| x.log_len()).unwrap_or(0));
+                    let r = catch(|| offer(&mut w).map_err(|e| err_kind(&e)));
+                    let after = (env.shp.log_len(), env.shx.as_ref().map(|x| x.log_len()).unwrap_or(0));
+                    let cj = json!({"file_type": file_ty.name(), "offered": format!("user-defined shape of type {}", name), "with_shx": with_shx});
+                    let mut hh = Fnv::new();
+                    hh.str(&cj.to_string());
+                    extra.case_done(hh.finish(), true, 7);
+                    extra.lib_calls += 1;
+                    let want = Err(format!("MismatchShapeType(requested={},actual={})", file_ty.code(), code));
+                    match r {
+                        Ok(got) if got == want && before == after => {}
+                        Ok(got) => extra.violation("user-typed-shape:rejected-write", || cj.clone(), || format!("returned {:?} (expected {:?}), {} operations on the .shp, {} on the .shx", got, want, after.0 - before.0, after.1 - before.1)),
+                        Err(p) => extra.violation(format!("user-typed-shape:{}", p.sig()), || cj.clone(), || p.msg.clone()),
+                    }
+                });
+            }
+        }
+    }
     let st = selftest(&pals);
     let mut ctxs = res.ctxs;
     ctxs.push(extra);
-    let agg = merge(ctxs);
+    let mut agg = merge(ctxs);
+    // a rejected write between faults: histories with one or two R after a W, every single fault (thorough: every pair)
+    {
+        let maxlen = tier.pick(4, 5);
+        let hists: Vec<Vec<WOp>> = crate::frun::histories(&[WOp::W(0), WOp::W(1), WOp::F, WOp::R], maxlen)
+            .into_iter()
+            .filter(|h| {
+                let nr = h.iter().filter(|o| **o == WOp::R).count();
+                let fw = h.iter().position(|o| matches!(o, WOp::W(_)));
+                let fr = h.iter().position(|o| *o == WOp::R);
+                (1..=2).contains(&nr) && matches!((fw, fr), (Some(w), Some(r)) if w < r)
+            })
+            .collect();
+        let other = |t: Ty| Some(ALL13[(ALL13.iter().position(|x| *x == t).unwrap() + 4) % 13]);
+        let (a, _) = crate::frun::sweep(&ALL13, other, &[true, false], &hists, tier.pick(false, true), None, |pal, case, run, ctx| {
+            let mut oh = Fnv::new();
+            oh.bytes(&run.shp);
+            ctx.case_done(case.hash(), true, oh.finish());
+            for (sig, d) in judge_frun(pal, case, run) {
+                ctx.violation(sig, || case.to_json(), || d);
+            }
+        });
+        agg.absorb(a);
+    }
     finish(
         RunInfo {
             prop: "C10",
             tier,
             level: "model_checking",
             engine: "E1 stateright BFS over operation histories on the real ShapeWriter / Writer over instrumented devices",
-            rule: "all 13x12 ordered (file type, offered type) pairs x {ShapeWriter+shx, ShapeWriter, complete Writer} x every history over {Wa, Wb, F, R=write of the offered type} (first op a W, <=2 R, no F on the complete Writer) up to the depth bound; plus a rejected write after EVERY number 1..=bound of accepted records (per-call operation log), and user-defined shapes of another type announcing sizes up to usize::MAX/2; non-trivial = contains an R",
-            bounds: json!({"depth": depth, "type_pairs": 156, "routes": 3, "max_rejected_calls": 2}),
+            rule: "all 13x12 ordered (file type, offered type) pairs x {ShapeWriter+shx, ShapeWriter, complete Writer} x every history over {Wa, Wb, F, R=write of the offered type} (first op a W, <=2 R, no F on the complete Writer) up to the depth bound; plus a rejected write after EVERY number 1..=bound of accepted records (per-call operation log), and user-defined shapes of another type announcing sizes up to usize::MAX/2, and user-defined shapes of each of the 14 types (NullShape included) offered to a file of every other type; plus every history up to the fault-history bound with one or two R behind a W under every single one-shot fault (thorough: every pair) on .shp / .shx, compared with the same history minus the rejected calls under the same faults; non-trivial = contains an R",
+            bounds: json!({"depth": depth, "fault_history_bound": tier.pick(4, 5), "type_pairs": 156, "routes": 3, "max_rejected_calls": 2}),
             exhaustive: true,
             assumptions: vec!["'changes nothing else' is judged by byte equality with the same history minus the rejected calls, run on the same tree; the .dbf date stamp (the only clock) is masked".into()],
             started,
@@ -412,6 +516,13 @@ pub fn check(tier: Tier) -> i32 {
 }
 
 pub fn replay(v: &Value) -> Vec<(String, String)> {
+    if let Some(fc) = crate::frun::FCase::from_json(v) {
+        let pal = fc.palette();
+        return match catch(|| crate::frun::run(&pal, &fc)) {
+            Ok(r) => judge_frun(&pal, &fc, &r),
+            Err(p) => vec![(format!("fault-run:{}", p.sig()), p.msg)],
+        };
+    }
     let case = match Case::from_json(v) {
         Some(c) => c,
         None => return vec![("bad-replay-file".into(), "cannot parse case".into())],
@@ -422,6 +533,44 @@ pub fn replay(v: &Value) -> Vec<(String, String)> {
         Err(p) => vec![(format!("harness-or-drop-panic:{}", p.sig()), p.msg)],
     }
 }
+
+macro_rules! user_types {
+    ($($name:ident => $variant:ident),*) => {
+        $(
+            /// a user-defined shape of this type: empty content
+            struct $name;
+            impl shapefile::record::HasShapeType for $name {
+                fn shapetype() -> shapefile::ShapeType {
+                    shapefile::ShapeType::$variant
+                }
+            }
+            impl shapefile::record::WritableShape for $name {
+                fn size_in_bytes(&self) -> usize {
+                    0
+                }
+                fn write_to<T: std::io::Write>(&self, _dest: &mut T) -> Result<(), shapefile::Error> {
+                    Ok(())
+                }
+            }
+            impl shapefile::record::EsriShape for $name {
+                fn x_range(&self) -> [f64; 2] {
+                    [0.0, 0.0]
+                }
+                fn y_range(&self) -> [f64; 2] {
+                    [0.0, 0.0]
+                }
+            }
+        )*
+        /// calls `f(type code, type name, offer)` for each of the 14 user-defined types; `offer(writer)` writes one
+        fn for_each_user_type(mut f: impl FnMut(i32, &'static str, &dyn Fn(&mut shapefile::ShapeWriter<Dev>) -> Result<(), shapefile::Error>)) {
+            $(
+                f(shapefile::ShapeType::$variant as i32, stringify!($variant), &|w: &mut shapefile::ShapeWriter<Dev>| w.write_shape(&$name));
+            )*
+        }
+    };
+}
+user_types!(UNull => NullShape, UPoint => Point, UPolyline => Polyline, UPolygon => Polygon, UMultipoint => Multipoint, UPointZ => PointZ, UPolylineZ => PolylineZ,
+    UPolygonZ => PolygonZ, UMultipointZ => MultipointZ, UPointM => PointM, UPolylineM => PolylineM, UPolygonM => PolygonM, UMultipointM => MultipointM, UMultipatch => Multipatch);
 
 /// A user-defined shape (the traits are public) that claims to be a polygon of an absurd size.
 struct Absurd {
